@@ -50,6 +50,7 @@ TQuery(ev) ==
        /\ Clause(ev, "query-pure", Shape(ev) /\ QueryEffect(ev.q))
        /\ Clause(ev, "query-operands", ev.ok)
        /\ Clause(ev, "query-deterministic", key \in DOMAIN memo => memo[key] = ev.result)
+       /\ Clause(ev, "query-fresh", ev.fresh = ev.result)                 \* same value on a graph rebuilt from the numbers of the abstract state
        /\ memo' = (key :> ev.result) @@ memo
 
 TSetFixed(ev) ==
@@ -64,6 +65,16 @@ TOptCall(ev) ==
   /\ Clause(ev, "opt-str", ev.raised \/ (ev.rep.strHeaderOk /\ ev.rep.strRows = Outcome(Favourable(ev.cls, ev.rep, ev.maxIter), 0, ev.maxIter).numIter))
   /\ Clause(ev, "opt-verbose", ev.rep.verboseOk)
   /\ Clause(ev, "opt-split", ev.rep.splitOk)
+  /\ Clause(ev, "opt-fresh", ev.rep.freshOk)                              \* same outcome on a graph rebuilt from the numbers of the abstract state
+
+\* the user's edits: exactly one pose token / one edge's number token changes; remembered query results are void
+TSetPose(ev) ==
+  /\ Observe(ev) /\ status' = status /\ memo' = EmptyMemo
+  /\ Clause(ev, "setpose-frame", Shape(ev) /\ SetPoseEffect(ev.idx, ev.verts[ev.idx].pose))
+TSetMeas(ev) ==
+  /\ Observe(ev) /\ status' = status /\ memo' = EmptyMemo
+  /\ Clause(ev, "setmeas-frame", Shape(ev) /\ (IF ev.idx = 0 THEN edges = <<>> /\ UNCHANGED <<verts, edges>>
+                                                ELSE Len(ev.edges) = Len(edges) /\ SetMeasEffect(ev.idx, ev.edges[ev.idx].num)))
 
 \* the call either refused (state unchanged) or the session continues on the re-imported graph, whose own binding is checked like a construction
 TReload(ev) ==
@@ -81,6 +92,8 @@ TNext ==
          [] ev.op = "SetFixed" -> TSetFixed(ev)
          [] ev.op = "OptCall" -> TOptCall(ev)
          [] ev.op = "Reload" -> TReload(ev)
+         [] ev.op = "SetPose" -> TSetPose(ev)
+         [] ev.op = "SetMeas" -> TSetMeas(ev)
 TSpec == TInit /\ [][TNext]_tvars
 
 \* every line was consumed and no clause failed
